@@ -326,8 +326,15 @@ def _other_tests_on(fi, names, recognised_calls=()):
     a validation exists in a shape the rule cannot read (-> not decided), as opposed to no validation at all"""
     rec = set(id(c) for c in recognised_calls)
     out = []
+    binds = single_bindings(fi.node)
+    names = set(names)
+    # locals computed from the governed value (named booleans, temporaries) count as mentioning it
+    def testlike(v):
+        return isinstance(v, ast.Compare) or (isinstance(v, ast.UnaryOp) and isinstance(v.op, ast.Not)) or (isinstance(v, ast.Call) and q.call_attr(v) in ("fullmatch", "match", "search", "startswith", "endswith", "isdigit", "isascii", "isidentifier", "all", "any"))
+
+    derived = {k for k, v in binds.items() if testlike(v) and (q.names_in(v) & names) and not any(id(x) in rec for x in ast.walk(v))}
     for n in fi.cfg.stmt_nodes(lambda n: n.kind == "test"):
-        if (q.names_in(n.ast) & set(names)) and not any(id(x) in rec for x in ast.walk(n.ast)):
+        if (q.names_in(n.ast) & (names | derived)) and not any(id(x) in rec for x in ast.walk(n.ast)):
             out.append(n)
     return out
 
@@ -1283,22 +1290,32 @@ def check_host(ck, env, RP="C01"):
     ck.ob(R, fi, fi.node, ok and n > 0, "invalid or multiple Host raises HTTPInputError", construct="host no-match / comma edges")
     # missing Host
     v10 = atom_edges(cfg, lambda a: True if (isinstance(a, ast.Compare) and isinstance(a.ops[0], ast.Eq) and q.dotted(a.left) == "self.version" and _const_str(a.comparators[0], "HTTP/1.0")) else None)
-    n_lookup = 0
+    # every lookup of the Host header is protected (KeyError handler whose non-raising path is HTTP/1.0-only) or guarded
+    hflow = Flow(fi)
+    lookups = [n for n in cfg.stmt_nodes(lambda n: node_mentions(n, lambda x: _hdr_get(x, "Host") and isinstance(x.ctx, ast.Load)))]
+    ck.floor(R, len(lookups), 1, "Host header lookups")
+    present = atom_edges(cfg, lambda a: True if _hdr_in(a, "Host") else None)
+    for node in lookups:
+        h = handler_for(fi, node.ast, "KeyError")
+        if h is None:
+            ck.ob(R, fi, node.ast, only_through(cfg, node, present), "a missing Host header is handled (KeyError handler or membership test), not an uncaught KeyError")
+            continue
+        raises = [s_ for s_ in q.walk_local(h) if isinstance(s_, ast.Raise)]
+        ck.ob(R, fi, h, any(_is_input_error(raised_class(s_)) for s_ in raises), "a missing Host header raises HTTPInputError (except for HTTP/1.0)", construct="except KeyError: missing Host")
+        # the handler completes normally only for HTTP/1.0
+        hn = [n for n in cfg.nodes if n.kind == "handler" and n.ast is h]
+        for hnode in hn:
+            sub = reach_without(cfg, v10, start=hnode.id, follow_exc=False, stop=lambda n: n.kind == "stmt" and isinstance(n.ast, ast.Raise))
+            leaves = [i_ for i_ in sub if cfg.nodes[i_].ast is not None and not contains(h, cfg.nodes[i_].ast) and cfg.nodes[i_].kind in ("stmt", "test")]
+            ck.ob(R, fi, h, not leaves, "without a Host header only an HTTP/1.0 request gets past the handler", construct="except KeyError: non-1.0 falls through")
     for node in cfg.stmt_nodes(lambda n: n.kind == "stmt" and isinstance(n.ast, ast.Assign) and host_attr in q.assigned_paths(n.ast)):
-        v = node.ast.value
-        if _hdr_get(v, "Host"):
-            n_lookup += 1
-            h = handler_for(fi, node.ast, "KeyError")
-            ck.ob(R, fi, node.ast, h is not None, "a missing Host header is handled (KeyError handler), not an uncaught KeyError")
-            if h is not None:
-                hn = [n for n in cfg.nodes if n.kind == "handler" and n.ast is h]
-                raises = [s for s in q.walk_local(h) if isinstance(s, ast.Raise)]
-                ck.ob(R, fi, h, any(_is_input_error(raised_class(s)) for s in raises), "a missing Host header raises HTTPInputError (except for HTTP/1.0)", construct="except KeyError: missing Host")
-        elif isinstance(v, ast.Constant):
+        v = hflow.expand(node.ast.value, node)
+        if _hdr_get(v, "Host") or (isinstance(v, ast.Call) and q.call_attr(v) == "get" and v.args and _const_str(v.args[0], "Host")):
+            continue
+        if isinstance(v, ast.Constant):
             ck.ob(R, fi, node.ast, only_through(cfg, node, v10), "a default host is assumed only for HTTP/1.0 requests")
         else:
             raise AnalysisError("unknown source of the request host at %s" % fi.site(node.ast))
-    ck.floor(R, n_lookup, 1, "Host header lookups")
 
 
 def check_400(ck, RP="C01"):
